@@ -130,6 +130,17 @@ theorem roundtrip_top (a : AsT) (t : List AsT) :
   obtain ⟨F, hF⟩ := statements_ok a t
   exact ⟨F, fun fuel hf => by simpa using hF fuel hf [] (Or.inl rfl)⟩
 
+/-- the three fraction layouts the renderer writes (`N/D`, `I N/D`, `-I N/D`) parse — for any digit strings, with any fuel
+from 40 up — to the quotient, to the SUM integer part + fraction, and to `(-I) - N/D`: the juxtaposition inside a mixed
+fraction is addition, not the multiplication juxtaposition means elsewhere (with C02's `mixed_fraction_roundtrip` this is the
+value the renderer started from) -/
+theorem fraction_layouts (i n d : String) (g : Nat) :
+    run (g + 40) .statements [.num n, .sym .div, .num d] = some (.bop .div (.num n) (.num d), []) ∧
+    run (g + 40) .statements [.num i, .num n, .sym .div, .num d] = some (.bop .plus (.num i) (.bop .div (.num n) (.num d)), []) ∧
+    run (g + 40) .statements [.sym .sub, .num i, .num n, .sym .div, .num d] =
+      some (.bop .minus (.neg (.num i)) (.bop .div (.num n) (.num d)), []) :=
+  ⟨improper_fraction_parse n d g, mixed_fraction_parse i n d g, neg_mixed_fraction_parse i n d g⟩
+
 -- non-vacuity: `a = b = 1 == 2 ; 3 != 4 ; 5` is stmts (stmts (assign a (assign b (1 == 2))) (3 != 4)) 5
 private def c6 (n : String) : Chain 6 := .up (.up (.up (.up (.up (.up (num n))))))
 private def exTop : AsT := .assign "a" (.assign "b" (.plain (.cmp true (c6 "1") (c6 "2"))))
